@@ -41,6 +41,29 @@
      C05_rejects_foreign_init_item  an init item whose head is neither "=" nor a declared predicate: (not (p a)),
                                     (at 5 (p a)), undeclared predicates
      C05_outside_examples_thm       texts of each class (seven of nine outside the spec's grammar), all rejected
+   OBJECT SECTIONS OUTSIDE THE GRAMMAR (Spec/ProblemObjects.v, Proofs/C05_AnyObjects*.v).  The grammar of Spec/Problem.v asks
+   for pairwise distinct object names and one-level (:private ...) groups between complete groups; the parser accepts more:
+   a name may be declared again, and lists may be nested to any depth, with any head, in any place.  For EVERY token tree e
+   standing for the (:objects ...) section, every type table and both values of the D19d flag:
+     C05_objects_any_text       parse_objects returns [objects_of known e] - the table of the declarations the section makes,
+                                in the order in which they take effect - and raises exactly when there is none (a dash not
+                                followed by a type name; a type after a dash - also of a superseded declaration or of an
+                                empty group - that is not declared)
+     C05_repeated_objects       a name declared more than once has ONE entry: at the place of its FIRST declaration, with
+                                the type of its LAST one (Python dict semantics)
+     C05_private_flattened      nested lists are flattened: the section and the flat typed list of its groups ([flat_text],
+                                every group closed by its dash, lists spliced where they stand; names pending before a list
+                                stay pending) have the same groups, the same table and the same outcome
+     C05_objects_normal_section an accepted section and its normal form "n1 - t1 n2 - t2 ..." ([objects_text], the form the
+                                exporter writes) give the same table; the normal form is a typed list of the grammar
+                                (read_objs) with pairwise distinct names
+     C05_objects_section_rejects  a section without a table makes the whole text raise, whatever surrounds it
+     C05_objects_normal_form    every accepted text is parsed exactly as its normal form [normal_objects e]
+     C05_faithful_any_objects, C05_wf_any_objects   hence the theorems above, stated for texts of the grammar, speak about
+                                every accepted text whose normal form is in the grammar: the parsed problem is faithful to
+                                what the normal form says, and the normal form passes the checks of C05_code_iff_typed
+     C05_any_objects_example_thm  o0 declared twice (t2, then t1 inside a list inside a list), names pending across a list:
+                                outside the grammar, accepted, table and dump as stated; a superseded "- zz" is rejected
    THE TREE WITH THE REPAIR PROPOSED FOR D19d (proposed_fixes/D19d.diff, not in /repo yet; model configuration [cfg_gt true],
    [cfg_gt false] being [cfg_fixed]; Model.Problem.cfg_current says which one the correspondence check runs): an argument of
    a numeric-goal fluent that IS a declared object / constant must have a conforming type.  Then
@@ -53,10 +76,10 @@
      C05_iff_typed_refuted   the full iff is still false: an UNDECLARED numeric-goal argument is still accepted
      C05_d19d_typed_example_thm  (= (f0 o2) 1) with o2 of a foreign type: accepted by cfg_fixed, rejected by cfg_gt true *)
 From Coq Require Import List String Bool PrimFloat.
-From Verif Require Import Base.Result Base.Str Base.Sexp Base.PyDict Model.Domain Model.NumExpr Model.Problem
+From Verif Require Import Base.Result Base.Str Base.Sexp Base.PyDict Model.Types Model.Domain Model.NumExpr Model.Problem
   Model.ProblemObs Spec.Pddl Spec.Grammar Spec.Problem
   Proofs.C05_Items Proofs.C05_Parse Proofs.C05_Faithful Proofs.C05_Repeats Proofs.C05_Examples Proofs.C05_Main
-  Proofs.C05_Outside.
+  Proofs.C05_Outside Spec.ProblemObjects Proofs.C05_Lemmas Proofs.C05_AnyObjects Proofs.C05_AnyObjectsMain.
 Import ListNotations.
 Open Scope string_scope.
 
@@ -197,6 +220,70 @@ Theorem C05_nonvacuous_thm :
              List.length (sp_goal sp) = 1 /\ List.length (sp_goal_num sp) = 2.
 Proof. exact (conj ex_dom_ok (conj ex_num_ok C05_nonvacuous)). Qed.
 
+(* ---------- object sections outside the grammar ---------- *)
+Theorem C05_objects_any_text : forall gt tt e,
+  res_rel (parse_objects_sx (cfg_gt gt) tt e) (objects_of (type_known tt) e).
+Proof. exact parse_objects_any. Qed.
+
+Theorem C05_repeated_objects : forall gt tt e gs,
+  groups_sx e = Some gs -> forallb (fun g : ogroup => type_known tt (snd g)) gs = true ->
+  exists os, parse_objects_sx (cfg_gt gt) tt e = Ok os /\
+             map fst os = firsts (map fst (decl_pairs gs)) /\
+             forall n, In n (map fst os) -> lookup n os = lookup n (rev (decl_pairs gs)).
+Proof. exact repeated_objects_lemma. Qed.
+
+Theorem C05_private_flattened : forall gt tt e gs k,
+  groups_sx e = Some gs ->
+  groups_sx (SList (Atom k :: flat_text gs)) = Some (gs ++ [([], "object")])%list /\
+  objects_of (type_known tt) (SList (Atom k :: flat_text gs)) = objects_of (type_known tt) e /\
+  res_rel (parse_objects_sx (cfg_gt gt) tt e) (objects_of (type_known tt) e) /\
+  res_rel (parse_objects_sx (cfg_gt gt) tt (SList (Atom k :: flat_text gs))) (objects_of (type_known tt) e).
+Proof. exact private_flattened_lemma. Qed.
+
+Theorem C05_objects_normal_section : forall gt tt k body os,
+  parse_objects_sx (cfg_gt gt) tt (SList (Atom k :: body)) = Ok os ->
+  parse_objects_sx (cfg_gt gt) tt (SList (Atom k :: objects_text os)) = Ok os /\
+  objects_of (fun _ => true) (SList (Atom k :: body)) = Some os /\
+  read_objs (objects_text os) [] = Some os /\ NoDup (map fst os).
+Proof. exact parse_objects_normal. Qed.
+
+Theorem C05_objects_section_rejects : forall gt num dom l1 body l2,
+  objects_of (type_known (d_types dom)) (SList (Atom ":objects" :: body)) = None ->
+  exists k, parse_problem (cfg_gt gt) num dom (SList (Atom "define" :: l1 ++ SList (Atom ":objects" :: body) :: l2)) = Err k.
+Proof. exact objects_section_rejects. Qed.
+
+Theorem C05_objects_normal_form : forall gt num dom e pb,
+  parse_problem (cfg_gt gt) num dom e = Ok pb -> parse_problem (cfg_gt gt) num dom (normal_objects e) = Ok pb.
+Proof. exact parse_problem_normal_objects. Qed.
+
+Theorem C05_faithful_any_objects : forall num dom, dom_ok dom -> num_ok num -> forall e sp pb,
+  parse_problem (cfg_gt true) num dom e = Ok pb ->
+  read_problem num (normal_objects e) = Some sp -> safe_repeats sp = true ->
+  pdump_equiv (dump_problem pb) (spec_dump num sp) = true.
+Proof. exact C05_faithful_any_objects_lemma. Qed.
+
+Theorem C05_wf_any_objects : forall num dom, dom_ok dom -> num_ok num -> forall e sp pb,
+  parse_problem (cfg_gt true) num dom e = Ok pb ->
+  read_problem num (normal_objects e) = Some sp ->
+  wf_code_t true num dom sp = true /\
+  (goal_args_declared dom sp = true -> goal_norepeat sp = true -> wf_sproblem num (vocab_of dom) sp = true).
+Proof. exact C05_wf_any_objects_lemma. Qed.
+
+Theorem C05_any_objects_example_thm :
+  read_problem ex_num any_objects_problem = None /\
+  objects_of (type_known (d_types ex_dom)) (objects_section_of any_objects_problem) = Some any_objects_table /\
+  (exists pb, parse_problem (cfg_gt true) ex_num ex_dom any_objects_problem = Ok pb /\ pb_objects pb = any_objects_table) /\
+  (exists sp pb, read_problem ex_num (normal_objects any_objects_problem) = Some sp /\ sp_objects sp = any_objects_table /\
+                 wf_sproblem ex_num (vocab_of ex_dom) sp = true /\ safe_repeats sp = true /\
+                 parse_problem (cfg_gt true) ex_num ex_dom any_objects_problem = Ok pb /\
+                 pdump_equiv (dump_problem pb) (spec_dump ex_num sp) = true) /\
+  objects_of (type_known (d_types ex_dom)) (objects_section_of any_objects_bad_type) = None /\
+  objects_of (fun _ => true) (objects_section_of any_objects_bad_type) = Some [("o0", "t1")] /\
+  is_ok (parse_problem (cfg_gt true) ex_num ex_dom any_objects_bad_type) = false /\
+  objects_of (fun _ => true) (objects_section_of any_objects_dangling_dash) = None /\
+  is_ok (parse_problem (cfg_gt true) ex_num ex_dom any_objects_dangling_dash) = false.
+Proof. exact C05_any_objects_example. Qed.
+
 Print Assumptions C05_accepts.
 Print Assumptions C05_code_iff.
 Print Assumptions C05_wf_split.
@@ -223,3 +310,12 @@ Print Assumptions C05_rejects_typed.
 Print Assumptions C05_faithful_typed.
 Print Assumptions C05_iff_typed_refuted.
 Print Assumptions C05_d19d_typed_example_thm.
+Print Assumptions C05_objects_any_text.
+Print Assumptions C05_repeated_objects.
+Print Assumptions C05_private_flattened.
+Print Assumptions C05_objects_normal_section.
+Print Assumptions C05_objects_section_rejects.
+Print Assumptions C05_objects_normal_form.
+Print Assumptions C05_faithful_any_objects.
+Print Assumptions C05_wf_any_objects.
+Print Assumptions C05_any_objects_example_thm.
